@@ -157,6 +157,8 @@ Additions for models/sparse_combo.py (the Gibbs blocks of LegacySparseDrugComboI
   `x.attr op= e`      x a bound variable of the owner type of the declared field `attr` (cfg["fields"]): `x.attr = x.attr op e`,
                       where `x.attr op e` is translated like the written binary expression (so through the typed operator
                       prims; numpy's in-place operator has the value of the out-of-place one; aliasing is not modelled)
+  if/else             a variable declared `T1 | T2` that both branches assign is NOT bound after the `if` (the branches may bind it at
+                      different types); it is poisoned like a variable only one branch assigns
   bare `return`       in a function with cfg["implicit_return"] (a method that mutates self and returns None): the function
                       ends with the implicit return value of the state at that point.  Without cfg["implicit_return"]
                       it stays `return None`.
@@ -1064,7 +1066,8 @@ class Tr:
                 raise Unsupported("an if with a branch that may, but need not, continue/return/break: " + ast.unparse(st.test))
             allv = self.assigned(st.body + st.orelse)
             vs = [v for v in allv if v in env and env[v] != ("unit",)]
-            both = [v for v in allv if v not in vs and v in self.plainly_assigned(st.body) and v in self.plainly_assigned(st.orelse)]
+            both = [v for v in allv if v not in vs and v in self.plainly_assigned(st.body) and v in self.plainly_assigned(st.orelse)
+                    and self.vars.get(v, ("",))[0] != "alt"]     # declared `T1 | T2`: the branches may bind it at different types - not carried
             vs = [v for v in allv if v in vs or v in both]     # assigned on both paths: bound afterwards
             dropped = [v for v in allv if v not in vs]
             ret = lambda env2, jump=None: "%s    %s %s\n" % (ind, self.M["ok"], tuple_term(vs)) if jump is None else self.unsupported("jump in if")
